@@ -149,7 +149,7 @@ def run_harness(crate, h, log_dir):
         "n_success": len([c for c in parsed["checks"] if c["status"] in ("SUCCESS", "UNREACHABLE") and ".cover." not in c["name"]]),
         "covers": parsed["covers"], "wall_s": round(secs, 2), "solver_s": parsed["verification_time"],
         "concrete_vals": parsed["concrete_vals"], "stubs": parsed["stubs"], "log": log,
-        "replay_dir": replay_dir(crate), "in_crate": crate["mode"] == "in_crate", "repo_crate": crate.get("repo_crate"),
+        "replay_dir": replay_dir(crate), "in_crate": crate["mode"] == "in_crate", "repo_crate": crate.get("repo_crate"), "cargo_args": crate.get("cargo_args"),
         "kind": h.get("kind", "bounded"), "bound": h.get("bound", ""), "props": h.get("props", []),
         "functions": h.get("functions", crate.get("functions", [])),
         "cmd": "cd %s && GIX_VERIF_DIR=%s CARGO_TARGET_DIR=%s %s" % (crate_cwd(crate), VERIF, target_dir(crate), " ".join(cmd)),
@@ -212,7 +212,7 @@ def run_batch(crate, hs, log_dir, jobs):
                     "covers": (int(mc.group(1)), int(mc.group(2))), "wall_s": float(mt.group(1)) if mt else 0.0,
                     "solver_s": float(mt.group(1)) if mt else None, "concrete_vals": None, "stubs": sorted(set(stubs)),
                     "log": os.path.join(log_dir, "%s%s.batch.log" % (crate["unit"], crate.get("unit_suffix", ""))),
-                    "replay_dir": replay_dir(crate), "in_crate": crate["mode"] == "in_crate", "repo_crate": crate.get("repo_crate"),
+                    "replay_dir": replay_dir(crate), "in_crate": crate["mode"] == "in_crate", "repo_crate": crate.get("repo_crate"), "cargo_args": crate.get("cargo_args"),
                     "kind": h.get("kind", "bounded"), "bound": h.get("bound", ""), "props": h.get("props", []),
                     "functions": h.get("functions", crate.get("functions", [])),
                     "cmd": "cd %s && GIX_VERIF_DIR=%s CARGO_TARGET_DIR=%s cargo kani %s --harness %s --exact" % (
@@ -233,7 +233,7 @@ def _batch_result(crate, h, full, status, reason, n_checks, n_success, secs, stu
         "failed_checks": [], "n_checks": n_checks, "n_success": n_success, "covers": None, "wall_s": secs or 0.0,
         "solver_s": secs, "concrete_vals": None, "stubs": stubs,
         "log": os.path.join(log_dir, "%s%s.batch.log" % (crate["unit"], crate.get("unit_suffix", ""))),
-        "replay_dir": replay_dir(crate), "in_crate": crate["mode"] == "in_crate", "repo_crate": crate.get("repo_crate"),
+        "replay_dir": replay_dir(crate), "in_crate": crate["mode"] == "in_crate", "repo_crate": crate.get("repo_crate"), "cargo_args": crate.get("cargo_args"),
         "kind": h.get("kind", "bounded"), "bound": h.get("bound", ""), "props": h.get("props", []),
         "functions": h.get("functions", crate.get("functions", [])),
         "cmd": "cd %s && GIX_VERIF_DIR=%s CARGO_TARGET_DIR=%s cargo kani %s --harness %s --exact" % (
